@@ -434,9 +434,11 @@ func (b *Buffer) mergeClusters(start, end int) {
 	}
 
 	cluster := b.Info[start].Cluster
+	last := cluster
 
 	for i := start + 1; i < end; i++ {
 		cluster = min(cluster, b.Info[i].Cluster)
+		last = max(last, b.Info[i].Cluster)
 	}
 
 	// Extend end
@@ -444,6 +446,11 @@ func (b *Buffer) mergeClusters(start, end int) {
 		for end < len(b.Info) && b.Info[end-1].Cluster == b.Info[end].Cluster {
 			end++
 		}
+	}
+	// the glyphs of the range may have been reordered: the following glyphs
+	// which belong to one of its clusters are merged as well
+	for end < len(b.Info) && b.Info[end].Cluster > cluster && b.Info[end].Cluster <= last {
+		end++
 	}
 
 	// Extend start
